@@ -460,6 +460,9 @@ def codecs_rule(ctx, repo, sf):
             for key, dom in domains:
                 domain_check(ctx, sf, ext, machine, key, dom)
 
+FORCED = {'move': ('3:50000,100,0:40000', '0:49152,50,7:16384', '5:65000,200,0:65300', '0:$C000,16,0:$C100'),
+          'poke': ('0:49152-49160,^85', '7:$FFFF,+1', '0:16384,255')}
+
 def edits_rule(ctx, repo, sf):
     ctx.rule('C09.12-edits', 'poke / move / patch specs folded on 48K and 128K memories == reference semantics (ranges, steps, ^ and +, page prefixes); only the named cells change', floor=9)
     rnd = random.Random(11 + ctx.seed)
@@ -516,6 +519,8 @@ def edits_rule(ctx, repo, sf):
             for k in range(n_each):
                 paged = model.endswith('paged spec')
                 spec = gen(kind, paged)
+                if paged and k < len(FORCED.get(kind, ())):
+                    spec = FORCED[kind][k]          # the boundary banks, named explicitly (bank 0 is not "no bank")
                 if model == '48K list':
                     mem, ref = mk48()
                 else:
